@@ -27,6 +27,9 @@ func All() map[string]orch.PropertySpec {
 		"C03": {ID: "C03", Level: "model_checking", Assumptions: trusted,
 			Rule: "cases are all documents TLC enumerates from spec/Profile.tla: the all-correct Response with 0..3 assertions and every set of at most two deviations from a 43-entry fault catalogue (root: Version, Destination, Issuer, Status; per assertion position: Issuer, Subject, SubjectConfirmation, Method, SubjectConfirmationData, Recipient, NotOnOrAfter), signed by the simulated IdP at the Response or at every assertion, or unsigned in skip mode, with and without a configured issuer; all replayed through ValidateEncodedResponse and RetrieveAssertionInfo; non-trivial = every case (each reaches profile validation)",
 			Parts: []orch.Part{{Family: fam.Profile{}, Monitors: []string{"C03"}}}},
+		"C05": {ID: "C05", Level: "model_checking", Assumptions: trusted,
+			Rule: "cases are all assignments TLC enumerates from spec/Time.tla of the SP clock, Conditions NotBefore, Conditions NotOnOrAfter and each assertion's SubjectConfirmationData NotOnOrAfter (1..2 assertions) to a tick or to absent / malformed, i.e. every relative order including all equalities; ticks are 500 ms apart and every bound is rendered in a seeded random RFC 3339 form (zone offset, fractional digits); all replayed; non-trivial = every case",
+			Parts: []orch.Part{{Family: fam.Time{}, Monitors: []string{"C05"}}}},
 	}
 }
 
